@@ -763,6 +763,13 @@ func runC14(r *Rand, tier string, o *Out) {
 		}
 		o.Count("scenario:subscriber-leaves-during-an-announcement")
 	}
+	// a subscriber's connection is lost while an announcement waits in the write to it
+	for i := 0; i < 2; i++ {
+		if out := o.Do("P", "pr.hanguprace", true); out != "[42 43] [42 43]" {
+			o.Fail("change events while the subscribers change: a subscriber that stayed did not get one event per write", "pr.hanguprace => "+out)
+		}
+		o.Count("scenario:subscriber-lost-during-an-announcement")
+	}
 	// concurrent histories on one register: clients and the service
 	hists := 60
 	if tier == "thorough" {
